@@ -127,15 +127,15 @@ type pev struct {
 }
 
 type cconn struct {
-	conn      *net.TCPConn
-	addr      string
-	slot      int
-	tDial     int64
-	done      bool // greeting answered 05 00 and the full CONNECT request written
-	replyBuf  []byte
-	connected bool // success reply read
-	refused   bool // failure reply read / stream ended
-	closeKind string
+	conn              *net.TCPConn
+	addr              string
+	slot              int
+	tDial             int64
+	done              bool // greeting answered 05 00 and the full CONNECT request written
+	replyBuf          []byte
+	connected         bool // success reply read
+	refused           bool // failure reply read / stream ended
+	closeKind         string
 	rstWhileConnected bool
 }
 
@@ -443,8 +443,27 @@ func slotPort() string {
 
 // ---------------------------------------------------------------------------- check
 
-func checkC(c CaseC) (v *core.Violation) {
+// checkC runs the program once; when a recorded case is replayed (./check --replay, or the
+// driver confirming the in-flight case of a process that died) the same program is run again
+// and again for up to a minute, because what it reproduces is a schedule, not an input.
+func checkC(c CaseC) *core.Violation {
+	if os.Getenv("VERIF_REPLAY") == "" {
+		return runC1(c)
+	}
+	t0 := time.Now()
+	for i := 0; i < 3000 && time.Since(t0) < 60*time.Second; i++ {
+		if v := runC1(c); v != nil {
+			return v
+		}
+	}
+	return nil
+}
+
+func runC1(c CaseC) (v *core.Violation) {
 	defer slowLog("c", c)()
+	if censusSane() != "" {
+		return skip("goroutine-model-mismatch")
+	}
 	x := &runC{f: newFixture(), answered: map[uint32]bool{}, answeredOK: map[uint32]bool{}, agentClosed: map[uint32]bool{},
 		seenAt: map[uint32]int64{}, fwdOpen: map[uint32]bool{}, fwdDialled: map[uint32]bool{}}
 	var err error
@@ -780,6 +799,7 @@ func classifyC(c CaseC) core.Class {
 }
 
 func TestC15c(t *testing.T) {
+	defer censusVerdict()
 	core.Run(t, core.Spec[CaseC]{
 		Property: "C15", Sub: "c",
 		Rule: "concurrent program, 2-5 parties on their own goroutines: one agent (2-8 callbacks: answer pending connects ok/fail, READ and CLOSE for sockets it connected, forward OPEN / READ type CLIENT / REMOVE on 3 ids), 0-2 operators (socks add / kill on 3 port slots, list, clear), 1-2 client programs (connect = full handshake + CONNECT request, write after the reply, close FIN/RST), 0-2 proxies pre-started; built with -race. Oracle: no panic, no party blocked, and at rest no duplicate key in any table, every socket's proxy still listed, sockets closed by the agent / reset by a connected client / seen registered before a kill or clear of their proxy began are gone, untouched sockets are present, proxy table consistent with every linearisation of add/kill/clear, forward table = opened minus removed, mutexes free; race reports with a Havoc frame are violations (driver). Non-trivial: >=2 client connections; distinct = parties x pre-started x set of removing step kinds",
